@@ -217,6 +217,9 @@ def run(ctx, sf):
     for k in range(ctx.n(1000, 8000)):
         n = rng.randint(1, nmax)
         spec = progs.rand_circuit(rng, n, rng.randint(0, 14), p_meas=0.35)
+        if k % 4 == 1:      # registers with holes / late modes: subsystem index != position in the register
+            spec = progs.with_del_new(rng, spec, p_del=1.0)
+            ctx.tally("with-del-new")
         marked = ("MeasureFock",) if k % 3 else tuple(rng.sample(["Sgate", "BSgate", "MeasureHomodyne", "Rgate", "LossChannel", "Dgate"], 2))
         check_spec(ctx, sf, spec, reqs, pending, marked)
         if len(reqs) > 4000:
